@@ -915,12 +915,8 @@ def run_C15(ctx):
     if not had_counterexample(ctx):
         hd = [d for d in i6_diffs(out) if d['case'].get('mode') == 'hist']
         report_corr(ctx, hd, {'I6'}, 'C15')
-    if not ctx.quick:
-        ctx.extra['race'] = race_run(ctx)
-
-
-def race_run(ctx):
-    return dict(skipped='see C15 thorough notes')
+    import raceprops
+    ctx.extra['concurrent_contexts'] = raceprops.run(ctx)
 
 
 REGISTRY = {}
@@ -944,15 +940,15 @@ MODEL_NOTE = ('Trusted: Coq 8.16.1 kernel; extraction (ExtrOcamlBasic) + OCaml; 
 
 reg('C01', run_C01, ['Prop_C01.v'], I6RULE + 'non-trivial = distinct (grammar, input) accepted with at least one reduction; every accepted run is re-executed by the verified checker Oracle.replay',
     technique='Coq theorem (LR driver invariant over the constructed automaton) + verified replay checker run on every accepted parse of the real generated parsers + model/implementation correspondence',
-    level_text='Proved in Coq for every grammar, every lookahead function, every precedence assignment and every token string: the table generated from the constructed LR(0) automaton drives the LR machine so that an accepted input has a parse tree with root = start symbol, yield = the input, post-order = the reductions (C01_table_sound); the array-and-pointer driver of the templates equals the abstract machine (C01_go_driver); the replay checker that is run on every accepted parse of the real five variants is sound (C01_replay_checker). The model pipeline (same functions as in the theorems, extracted) is compared with /repo at the LR(0), table, packed-lookup and generated-parser interfaces on every run.',
+    level_text='Proved in Coq for every grammar, lookahead function, precedence assignment and token string: the table generated from the constructed LR(0) automaton drives the LR machine so that an accepted input has a parse tree with root = start symbol, yield = the input, post-order = the reductions (C01_table_sound); the array-and-pointer driver of the templates equals the abstract machine (C01_go_driver); the same for the whole model pipeline as it is run: grammar object -> automaton -> lookaheads -> resolved table -> packed arrays -> array driver, in all variants (C01_pipeline); the replay checker that is run on every accepted parse of the real five variants is sound (C01_replay_checker). The model pipeline (the functions of the theorems, extracted) is compared with /repo stage by stage (tokens, AST, grammar object, LR(0), lookaheads, table, packed lookup, generated parsers) and end to end from the bytes of the grammar file on every run.',
     level_note=MODEL_NOTE)
 reg('C02', run_C02, ['Prop_C02.v'], I6RULE + 'non-trivial = distinct (grammar, sentence) of grammars whose model table has no cell with two candidates',
     technique='Coq theorem (completeness of the LALR table by induction on parse trees, lookahead-annotated certificate) + sentences of conflict-free grammars fed to the real parsers + correspondence at I2-I6',
-    level_text='Proved in Coq: for the automaton built by the model, the executable DeRemer-Pennello lookaheads and the generated table, if no cell has two candidate actions then the LR machine accepts the yield of every valid parse tree with exactly its post-order as reductions (C02_complete). The real parsers (5 variants) are run on every sentence up to the length bound and on sampled longer ones of every conflict-free corpus grammar; a rejected sentence is the failing input. Completeness for the packed variants additionally rests on C05.',
+    level_text='Proved in Coq: for the automaton built by the model, the executable DeRemer-Pennello lookaheads and the generated table, if no cell has two candidate actions then the LR machine accepts the yield of every valid parse tree with exactly its post-order as reductions (C02_complete), and so does the model pipeline as run, through the packed arrays and the array driver in every variant (C02_pipeline). The real parsers (5 variants) are run on every sentence up to the length bound and on sampled longer ones of every conflict-free corpus grammar; a rejected sentence is the failing input.',
     level_note=MODEL_NOTE + ' Hypothesis of C02_complete: grammar well-formedness facts and productivity (first of every sequence non-empty), established by yaccgo\'s own checks (C12).')
 reg('C03', run_C03, ['Prop_C03.v'], BERULE + 'non-trivial = grammars with >= 2 reductions one of which has >= 2 lookaheads; plus the real Digraph on random relations with cycles',
     technique='Coq theorem (executable DeRemer-Pennello sets = LR(1) lookaheads over all access paths, both inclusions) + comparison of the implementation\'s LA sets and warnings with the proved model on every corpus grammar',
-    level_text='Proved in Coq (C03_lookahead): for every grammar meeting the well-formedness facts, the model\'s lookahead list of every reduction in every state equals {t | exists access path gamma to the state with the LR(1) item [A -> alpha ., t] valid for gamma}, i.e. the union over the canonical LR(1) states with that core; C03_warning: a warning is raised exactly when a pair met by the pairwise resolution lacks a precedence. The implementation\'s LA sets and warning multiset are compared with the model on every corpus grammar; the real Digraph/Traverse/Union runs against transitive union on random relations with cycles.',
+    level_text="Proved in Coq (C03_lookahead): for every grammar meeting the well-formedness facts, the model's lookahead list of every reduction in every state equals {t | exists access path gamma to the state with the LR(1) item [A -> alpha ., t] valid for gamma}, i.e. the union over the canonical LR(1) states with that core; the same for the lookahead sets the model pipeline actually computes and feeds to the table generator (C03_pipeline); C03_warning: a warning is raised exactly when a pair met by the pairwise resolution lacks a precedence. The implementation's LA sets and warning multiset are compared with the model on every corpus grammar; the real Digraph/Traverse/Union runs against transitive union on random relations with cycles (slices built as yaccgo builds them).",
     level_note=MODEL_NOTE + ' Digraph is modelled as transitive union (saturation), the SCC bookkeeping of Traverse is tied by the differential run only.')
 reg('C04', run_C04, ['Prop_C04.v'], BERULE + 'non-trivial = grammars with precedence declarations; plus every pair of the finite (type, prec, assoc, index) grid through ResolveConflict/UseDefaultResolveConflict',
     technique='Coq theorems by case analysis on the resolution function + exhaustive differential run of the exported ResolveConflict/UseDefaultResolveConflict + dense-cell comparison with the model',
@@ -960,27 +956,27 @@ reg('C04', run_C04, ['Prop_C04.v'], BERULE + 'non-trivial = grammars with preced
     level_note=MODEL_NOTE)
 reg('C05', run_C05, ['Prop_C05.v'], BERULE + 'evaluations = cells looked up through the packed arrays + random matrices through PackTable/UnPackTable + packed vs -u parser runs; non-trivial = grammars with a non-error default, matrices with an empty leading column',
     technique='Coq theorem (first-fit row displacement with check vector is lossless for every matrix and row order) + every (state,symbol) lookup through the implementation\'s packed arrays vs its dense table + random matrices through PackTable/UnPackTable + packed vs -u parsers',
-    level_text='Proved in Coq for every matrix and every duplicate-free row order: lookup through the packed arrays returns the cell (C05_lookup_core). On every run every cell of every corpus grammar is looked up through the implementation\'s own packed arrays (template Action() logic) and compared with GTable, random matrices go through utils.PackTable/UnPackTable, and packed vs -u generated parsers are compared on all inputs.',
+    level_text="Proved in Coq for every matrix and every duplicate-free row order: lookup through the packed arrays returns the cell (C05_lookup_core, C05_lookup), unpacking the packed arrays gives back the matrix (C05_pack_roundtrip), and the packed and dense parsers of the model pipeline agree on every input (C05_packed_agrees). On every run every cell of every corpus grammar is looked up through the implementation's own packed arrays (template Action() logic) and compared with GTable, random matrices go through utils.PackTable/UnPackTable, and packed vs -u generated parsers are compared on all inputs.",
     level_note=MODEL_NOTE)
 reg('C06', run_C06, ['Prop_C06.v'], I6RULE + 'evaluations = rejected runs; non-trivial = distinct (conflict-free grammar, non-sentence) whose error position is compared with an Earley viable-prefix computation',
     technique='Coq theorem (no Crash / nil return under the table certificate) + outcome classification and fetch count of every rejected run of the real parsers vs Earley viable-prefix computation and the model',
-    level_text='Proved in Coq: under the certificate satisfied by generated tables the LR machine never ends in Crash or a nil return; it accepts, reports a syntax error or is still running (C06_no_crash). Every rejected run of the five real variants must use the documented error channel; for conflict-free grammars the number of tokens requested at the error must be (first token that cannot continue a sentence)+1 as computed by an Earley recogniser. Halting on non-sentences is checked by a reduction limit, not proved (partial).',
+    level_text='Proved in Coq: under the certificate satisfied by generated tables the LR machine never ends in Crash or a nil return; it accepts, reports a syntax error or is still running (C06_no_crash), also for the model pipeline as run in every variant (C06_pipeline). Every rejected run of the five real variants must use the documented error channel; for conflict-free grammars the number of tokens requested at the error must be (first token that cannot continue a sentence)+1 as computed by an Earley recogniser; every accepted run is re-executed by the verified checker. Halting on non-sentences is checked by a reduction limit, not proved (partial).',
     level_note=MODEL_NOTE + ' The Earley recogniser (python) is untrusted search: a case it flags is confirmed against the model.')
 reg('C07', run_C07, ['Prop_C07.v'], I6RULE + 'actions: $$ = (c + sum coef_i*$i) mod 1000003 with random coefficients and random union fields per symbol; non-trivial = accepted inputs whose derivation uses a rule of length >= 2',
     technique='Coq theorem (value returned = bottom-up evaluation over the parse tree, Dollar slice addressing for every rule length) + verified replay of every accepted run of the real parsers with random linear actions',
-    level_text='Proved in Coq: an accepted run returns veval of the parse tree whose post-order is the reduction sequence, for rules of every length including 0 (C07_values); the replay checker is sound (C07_replay_checker). Every accepted run of the five real variants with random linear actions and random union fields is replayed by the extracted checker and its value compared.',
+    level_text="Proved in Coq: an accepted run returns veval of the parse tree whose post-order is the reduction sequence, for rules of every length including 0 (C07_values), also for the model pipeline as run in every variant (C07_pipeline); the replay checker is sound (C07_replay_checker). Every accepted run of the five real variants with random linear actions (incl. rules with 10-13 symbols reading $10..$13, alternatives sharing their action text) and random union fields is replayed by the extracted checker and its value compared with the model's.",
     level_note=MODEL_NOTE + ' User actions are modelled as pure functions of the $n values.')
 reg('C08', run_C08, ['Prop_C08.v'], I6RULE + 'evaluations = (grammar, job, variant pair) comparisons of verdict, reductions with fetch stamps, value, fetch count; non-trivial = jobs with an accepted parse',
     technique='Coq theorem (array-and-pointer driver simulates the abstract machine; packed lookup = dense cell) + pairwise comparison of the five real variants on identical inputs',
-    level_text='Proved in Coq: the concrete driver shared by all templates equals the abstract machine on every table/input/fuel (C08_array_driver) and packed lookup equals the dense cell (C08_packed_lookup). All five real variants are compared pairwise on every corpus input (verdict class, reductions with fetch stamps, value, fetch count).',
+    level_text='Proved in Coq: the concrete driver shared by all templates equals the abstract machine on every table/input/fuel (C08_array_driver), packed lookup equals the dense cell (C08_packed_lookup), and the five variants of the model pipeline give the same verdict, reductions and value on every input (C08_variants). All five real variants are compared pairwise on every corpus input (verdict class, reductions with fetch stamps, value, fetch count).',
     level_note=MODEL_NOTE)
 reg('C09', run_C09, ['Prop_C09.v'], BERULE + 'non-trivial = grammars with >= 4 states and a state with >= 2 kernel items',
     technique='Coq theorems about the executable closure/goto worklist (structure, closure completeness, goto completeness, reachability) + implementation automaton compared with the model up to renumbering',
-    level_text='Proved in Coq for the executable worklist construction: items of a target are advanced items or closure items, state 0 is the closure of the start item, the start item occurs only in state 0, items valid and duplicate-free, every edge justified, every state reachable (C09_structural, C09_more), closure closed under prediction (C09_closure_complete), every symbol after a dot has an edge (C09_goto_complete). The implementation\'s LR0Closure is compared with the model as a set of item sets with goto edges (bijection through item sets, state 0 fixed) and checked for duplicate states.',
-    level_note=MODEL_NOTE + ' "No two equal states" is checked on the implementation output on every run and not yet a Coq theorem.')
-reg('C15', run_C15, ['Prop_C15.v'], I6RULE + 'histories: 2-6 parses in a row on one parser (ParserInit before each; one shared context in object mode) compared with the same parses alone; nested parses on a second context started from inside GetToken; non-trivial = histories mixing accepted and rejected inputs, nested runs that happened',
-    technique='Coq theorems (re-initialisation in global and object mode makes the run independent of the previous state) + parse histories and nested parses on the real parsers vs the same parses alone and vs the model',
-    level_text='Proved in Coq: after ParserInit the run equals the run from the fresh state, in global mode for every previous state and in object mode for every state whose cell 0 holds the initial entry (C15_reinit_global, C15_reinit_object). Histories of 2-6 parses mixing accepted and rejected inputs on one parser/context, and parses on a second context started in the middle of another parse, are run on the real parsers and compared with the same parses alone. Data races are runtime behaviour outside the model (partial).',
+    level_text="Proved in Coq for the executable worklist construction: items of a target are advanced items or closure items, state 0 is the closure of the start item, the start item occurs only in state 0, items valid and duplicate-free, every edge justified, every state reachable (C09_structural, C09_more), closure closed under prediction (C09_closure_complete), every symbol after a dot has an edge (C09_goto_complete), no two states have the same item list (C09_no_duplicate_states), and every edge leads to the state whose items are the closure of the advanced items (C09_canonical_edges). The implementation's LR0Closure is compared with the model as a set of item sets with goto edges (bijection through item sets, state 0 fixed) and checked for duplicate states.",
+    level_note=MODEL_NOTE)
+reg('C15', run_C15, ['Prop_C15.v'], I6RULE + 'histories: 2-6 parses in a row on one parser (ParserInit before each; one shared context in object mode) compared with the same parses alone; nested parses started from inside GetToken and from inside an action before $n is read (second context in object mode, PushContex/PopContex in default mode); the harness lexer counts tokens in the value record it is handed; concurrent: every -o parser of 4/16 grammars x 6 goroutines with a context each x 30/300 rounds over ~20 inputs under `go build -race`, every result compared with the same parse alone, any DATA RACE report is a violation. non-trivial = histories mixing accepted and rejected inputs, nested runs that happened, accepted inputs of the concurrent run',
+    technique='Coq theorems (re-initialisation; histories of any length; cell 0 never overwritten; small-step driver = driver; any interleaving of steps on distinct contexts = each alone; refuted for one shared stack) + parse histories, nested parses (from the lexer and from inside actions, both modes) and concurrent goroutines on distinct contexts under the Go race detector, compared with the same parses alone and with the model',
+    level_text="Proved in Coq: after ParserInit the run equals the run from the fresh state (C15_reinit_global, C15_reinit_object); no run overwrites cell 0 of the stack array (C15_cell0_preserved), so for histories of any length, accepted and rejected inputs mixed, in global and object mode, the results are those of the same parses on a fresh parser (C15_histories); the driver in small steps is the driver (C15_small_steps), and for every schedule of steps over any number of contexts each context is where it would be alone after its own steps and reports what the abstract machine reports for its own input (C15_interleaving, C15_contexts_independent); with one shared stack the statement is false (C15_shared_stack_refuted), so it separates the designs. Tie to the code on every run: histories of 2-6 parses, parses started in the middle of another parse (from GetToken and from inside an action; on a second context in object mode, through PushContex/PopContex in default mode), a lexer that relies on the value record starting out zero, and 6 goroutines per parser with a context each running at the same time under Go's race detector. Partial: the Go memory model is outside the Coq model; the race detector is trusted for the absence of shared writes on the executions it sees.",
     level_note=MODEL_NOTE)
 
 reg('C19', cliprops.run_C19, ['Prop_C19.v'], 'fault enumeration: one or more failing inputs per kind of input-caused failure (lexical: stray character, unclosed comment, unbalanced action, bad character literal, unclosed prologue; syntax: missing %%, stray number, %type without tag, %prec without symbol; undefined symbol; undefined start symbol; %type without rule; unproductive nonterminal; $n too big / zero / on an empty rule / on an untyped symbol / in a late rule) x {go, go -u, go -o, go -o -u, typescript} through the CLI built from /repo with a pre-existing output file: exit status and bytes afterwards; successful generations over no file and over a longer pre-existing file must be byte-identical and end with the epilogue; FsModel.predict (extracted) is compared with each observation. non-trivial = distinct (fault kind, target)',
@@ -988,28 +984,28 @@ reg('C19', cliprops.run_C19, ['Prop_C19.v'], 'fault enumeration: one or more fai
     level_text='Proved in Coq over FsModel (the step sequence of TemplateGenFromString/TsGenFromString): a failure at any input-caused step leaves every path untouched (C19_atomic); a success leaves exactly the generated text at the output path and touches nothing else (C19_complete); success iff no step fails (C19_success_iff). The tie to the code is a fault enumeration on every run: every kind of input-caused failure x five targets through the real CLI with a pre-existing file (bytes and exit status), plus successful generations over a longer pre-existing file compared byte-for-byte with a fresh generation.',
     level_note=MODEL_NOTE + ' os.Create/Write failures (permissions, disk full) are not input-caused and not modelled. TooManyStates (>2000 states) is not in the fault list.')
 reg('C14', cliprops.run_C14, ['Prop_C14.v'], 'repeated runs: every corpus grammar (curated families, seeded random grammars with many auto-numbered tokens / many states / nullable cycles / precedences, operator tables, a hand-written includes-cycle grammar, the repo examples) x {go, go -u, go -o, go -o -u, typescript} is generated N times (quick 6, thorough 40) by the CLI built from /repo in separate processes (Go re-randomises map iteration per process and per range statement); outputs compared byte for byte. non-trivial = distinct (grammar, target) that generate successfully',
-    technique='Coq lemma (sorting the keys removes dependence on iteration order) + N repeated CLI runs per grammar and option set in separate processes with byte comparison',
-    level_text='Proved in Coq: a stable insertion sort over a total order gives the same list for every permutation of its input (C14_sort_independent), which is the argument for every site where yaccgo ranges over a map after sorting the keys. Whether every map-iteration site of the code is of that kind is not proved; it is checked on every run by generating every corpus grammar N times in separate processes for all five targets and comparing bytes (the schedule = Go\'s per-process map order). Partial: only Permutation-orders are modelled.',
+    technique='Coq theorems (sorting removes dependence on iteration order; table generation depends on lookahead sets only as sets; identifier table order irrelevant after sorting) + N repeated CLI runs per grammar and option set in separate processes + sequences of generations inside one process, all compared byte for byte',
+    level_text="Proved in Coq: a stable insertion sort over a total order gives the same list for every permutation of its input (C14_sort_independent, C14_sorted_names: the name order is total, transitive and antisymmetric), the generated table depends on the lookahead lists only through membership (C14_lookahead_sets_as_sets) and the identifier table only through its sorted content (C14_identifier_table_order). Whether every map-iteration site of the Go code is of that kind is not proved; it is checked on every run by generating every corpus grammar N times in separate processes for all five targets and comparing bytes (the schedule = Go's per-process map order), and by running 3-6 generations with different option sets inside one process and comparing each with the output of a fresh process. Partial: only Permutation-orders are modelled.",
     level_note=MODEL_NOTE + ' Scheduler/allocator effects are outside the model (none are used by yaccgo).')
-reg('C13', cliprops.run_C13, ['Prop_C13.v'], 'texts: every prefix (quick: a random sample of cut points; thorough: all) of the repo examples, curated grammars and a feature-rich hand-written grammar; 25/400 random byte edits each (delete, insert of structural tokens, duplicate, bit flip, random byte, swap); a list of truncations ending right after a construct that waits for more tokens; inputs with non-ASCII letters and digits. Each text goes through generate go, generate typescript and debug in-process under a 4 s deadline per entry point (normal: milliseconds) and a sample through the real CLI in separate processes under 6 s. non-trivial = texts on which at least one entry point stops with a diagnostic',
-    technique='Coq theorem (the lexer model is a fold over the bytes, hence total) + deadline runs of generate/debug on prefixes and random edits of grammar files',
-    level_text='The termination argument is carried by the shape of the model: the lexer is a one-byte transducer folded over the input (total by construction, C13_lexer_total restates its composition law), the LR(0) worklist is bounded by the 2000-state cap, closure and productivity sweeps by |rules|+1 (C09_closure_complete, C12_productive). What ties this to the Go code (state functions that could stop consuming input, a parser loop that could wait on a closed channel) is the deadline run: every prefix and random edits of well-formed files through generate go / generate typescript / debug. Partial: the parser loops of Parser.go are not yet modelled in Coq; OS scheduling and the Go runtime are outside the model.',
+reg('C13', cliprops.run_C13, ['Prop_C13.v'], "texts: every prefix (quick: a random sample of cut points; thorough: all) of the repo examples, curated grammars and a feature-rich hand-written grammar; 120/1500 random byte edits each (delete, insert of structural tokens, duplicate, bit flip, random byte, swap); a list of truncations ending right after a construct that waits for more tokens; inputs with non-ASCII letters and digits; 150/2000 whole random grammars with %nonassoc/%precedence operators and pasted duplicate alternatives (crowded table cells, unit cycles). Each text goes through generate go, generate typescript and debug in-process under a 4 s deadline per entry point (normal: milliseconds) and a sample through the real CLI in separate processes under 6 s; the Coq lexer and parser models run on the same texts and are compared with the real lexer's tokens and the real parser's AST. non-trivial = texts on which at least one entry point stops with a diagnostic",
+    technique='Coq theorems (lexer model: progress per visit, fuel |input|+1 suffices; parser model: every loop leaves on EOF/Error or moves on, fuel 2|tokens|+8 suffices; the whole model generator never answers out-of-fuel) + deadline runs of generate/debug on prefixes, random edits and conflict-heavy grammars + lexer and parser models against the real lexer and parser on the same texts',
+    level_text="Proved in Coq: every visit of the lexer's root state consumes input (C13_lexer_progress), so the lexer model never runs out of its fuel and its token list is bounded by |input|+2 (C13_lexer_total, C13_lexer_fuel_irrelevant, C13_token_bound); the parser model - every loop of Parser.go on fuel, the three-slot look-back buffer as it is - never runs out of the fuel 2|tokens|+8 (C13_parser_total, C13_parser_fuel: measure = tokens still to be delivered + 1 while the current token is not EOF/Error); hence the model of the whole generator answers on every byte string with a verdict, a refusal, the state limit or tables (C13_generator_answers). The later stages are bounded by construction (2000-state cap, sweeps bounded by |rules|+1, saturation bounded by the size of the relation). The tie to the Go code: lexer and parser models are compared with Lex.go/Parser.go on every text of the run, and every text goes through generate go / generate typescript / debug under a deadline; conflict resolution, which the model does by structural recursion, is exercised with crowded table cells. Partial: goroutine scheduling and the Go runtime are outside the model.",
     level_note=MODEL_NOTE)
 
 reg('C10', frontprops.run_C10, ['Prop_C10.v'], 'abstract specifications (curated families + seeded random grammars with every printable character literal, names that start with directive words, actions with nested braces / comments / strings, explicit token numbers, re-declarations, tokens declared only through precedence lines or only used in rules, optional %start, missing epilogue, prologue and union containing grammar-like text) x 6 (quick) / 24 (thorough) renderings each: single spaces, one token per line, no optional space at all, random blanks/tabs/newlines with // and /* */ comments (incl. runs of stars) between every pair of tokens, with and without ; terminators, alternatives grouped with |. Compared: what the implementation read back (rules in order with symbols, %prec and action text; start symbol; tags; fixed codes; precedence levels; prologue/union/epilogue bytes) with the specification that was rendered, and all renderings of one specification with each other; the Coq visitor model runs on the implementation\'s AST. non-trivial = renderings that contain comments',
-    technique='Coq theorem (lexing any rendering of a token sequence gives back the tokens: transducer lexer, separators incl. comments) + specification/rendering round trip through the real front end + Coq visitor model on the implementation AST',
-    level_text='Proved in Coq at the token level for the transducer lexer model: lex (render d) = tokens of d for every layout of blanks, // and /* */ comments incl. star runs (C10_lex_roundtrip; subset of the token kinds: identifiers, punctuation, character literals, %%, brace-balanced actions). The grammar level (parser + visitor) is modelled executably in Front.v and compared with the implementation on its own AST on every run; the end-to-end statement front (render L s) = denote s is checked on every run by rendering random specifications under random layouts and comparing what the real front end read back with the specification, and renderings with each other. Partial: the parser layer and the remaining token kinds are not yet proved.',
+    technique="Coq theorems (the lexer model gives back the tokens of every rendering of a token document; rules are read as written) + specification/rendering round trip through the real front end + Coq lexer, parser and visitor models against the implementation's tokens, AST and grammar object",
+    level_text='Proved in Coq for the lexer model that is compared with Lex.go byte for byte (Lexer.lex): for every well-formed token document (identifiers, numbers, punctuation, %% marks, character literals, brace-balanced actions, directives; separated by any blanks, // comments and /* */ comments incl. star runs) lex (render d) = the tokens of d (C10_lexer_roundtrip, with a non-trivial Example); the older transducer statement is kept (C10_lex_roundtrip); at the grammar level the visitor keeps rules, symbols, %prec and actions in order as written (C10_rules_as_written). The parser layer (YParser.v) is an executable model compared with Parser.go on every AST; the end-to-end statement front (render L s) = denote s is checked on every run by rendering random specifications under random layouts and comparing what the real front end read back with the specification, and renderings with each other. Partial: no round-trip theorem for the parser layer.',
     level_note=MODEL_NOTE + ' Dialect restrictions are explicit in the generator (DESIGN 5.C10): brace-balanced action/union bodies, a literal never directly after a bare identifier in a %token line (it would be its alias), %union followed by blanks then { then white space.')
 reg('C11', frontprops.run_C11, ['Prop_C11.v'], 'declaration mixes: seeded random grammars with 3-9 terminals declared in every way (tagged/untagged %token lines, several per line, explicit numbers: small, > 255, negative, inside the range the automatic numbering walks through, re-declared in a second %token line, character literals declared / only in precedence lines / only in rules, aliases), distinct explicit numbers. Checked on the implementation: the verified checker Front.valid_codes (extracted) on the AST declarations and the final identifier table; emitted `const NAME = n` lines and the translate switch of both generated files (Go, TypeScript) against the grammar\'s terminals. non-trivial = mixes with both automatically numbered and explicitly numbered named tokens',
     technique='Coq-verified checker (valid_codes_sound) run on the implementation\'s identifier table + emitted constants/translate parsed from both generated targets + Coq visitor model on the implementation AST',
-    level_text='Proved in Coq: any code table accepted by valid_codes keeps every fixed code, gives every other token a code outside the fixed codes and different from -1, and is duplicate-free when the fixed codes are (C11_checker_sound). The extracted checker runs on the implementation\'s own declarations and final table for every declaration mix; the emitted constants and the translate switch of the generated Go and TypeScript files are parsed and compared with the grammar\'s terminals (every code to its own symbol, -1 to the end marker, nothing else listed). The generator-side theorem (the model\'s visit always passes valid_codes) is not yet proved; the Coq visitor model is compared with the implementation on every AST.',
+    level_text="Proved in Coq: any code table accepted by valid_codes keeps every fixed code, gives every other token a code outside the fixed codes and different from -1, and is duplicate-free when the fixed codes are (C11_checker_sound); the model of the visitor's numbering always produces a table that passes valid_codes (C11_codes_model, C11_codes). The extracted checker also runs on the implementation's own declarations and final table for every declaration mix; the emitted constants and the translate switch of the generated Go and TypeScript files are parsed and compared with the grammar's terminals (every named token has its constant, every code maps to its own symbol, -1 to the end marker, nothing else listed); the Coq visitor model is compared with the implementation on every AST.",
     level_note=MODEL_NOTE)
 reg('C12', frontprops.run_C12, ['Prop_C12.v'], 'seeded random usable grammars with one planted defect each: undefined symbol anywhere in a right-hand side; nonterminal without terminal derivation through left recursion, right recursion, mutual recursion, two recursive rules, unreachable, at the start symbol; %type name without rule; %start without rule; and the accept side: productive only through an empty rule, productive through a chain of unit rules listed in the unfavourable order, no defect. Compared: refusal and its reason (from the panic text) with the planted defect, and with the Coq front-end model run on the implementation\'s AST. non-trivial = grammars that must be refused',
     technique='Coq theorem (the sweep-until-stable loop computes exactly the productive symbols) + planted-defect grammars through the real front end + Coq front-end model (visit, build_grammar) on the implementation AST',
-    level_text='Proved in Coq: the fixpoint loop of CalculateCanTerminate/CalculateEpsilonClosure as modelled computes exactly the inductive predicate "derives a terminal string", with fuel |rules|+1 shown sufficient (C12_productive). The model of the visitor and of BuildLALR1\'s checks (Front.v) decides refusal and its reason; it is compared with the implementation on every run on grammars with planted defects of every kind and position, and the implementation\'s verdict is compared with the planted defect itself.',
+    level_text='Proved in Coq: the fixpoint loop of CalculateCanTerminate/CalculateEpsilonClosure as modelled computes exactly the inductive predicate "derives a terminal string", with fuel |rules|+1 shown sufficient (C12_productive, C12_unproductive_exact); build_grammar and visit refuse exactly in the listed cases (undefined symbol, %type/%start name without rule, unproductive nonterminal, unknown %prec symbol) and otherwise return a grammar (C12_build_cases, C12_visit_cases). The model is compared with the implementation on every run on grammars with planted defects of every kind and position, and the implementation\'s verdict is compared with the planted defect itself.',
     level_note=MODEL_NOTE + ' The 2000-state limit is outside the checked range.')
 
-reg('C16', genprops.run_C16, ['Prop_C16.v'], 'grammars: curated families, one grammar per group of literal characters covering every printable special character (quotes, backslash-free, %, $, braces, bar, space, backquote), seeded random grammars (operator tables, many literals, long rules and many alternatives, empty rules, precedences); actions drawn from a pool that uses $$ and $n with typed symbols and contains %, format strings, block and line comments, strings with braces and quotes, raw strings, nested blocks; minimal prologue (package + import fmt / "use strict") and epilogue (GetToken). Every file the CLI built from /repo reports as generated is compiled: the four Go variants as packages of one module through `go vet` (type check) and `go build`, the TypeScript variant loaded by node >= 22 with type stripping. non-trivial = (grammar, variant) pairs that the generator accepted',
+reg('C16', genprops.run_C16, ['Prop_C16.v'], 'grammars: curated families, one grammar per group of literal characters covering every printable special character (quotes, backslash-free, %, $, braces, bar, space, backquote), seeded random grammars (operator tables, many literals, long rules and many alternatives, empty rules, precedences), declaration mixes; actions drawn from a pool that uses $$ and $n with typed symbols and contains %, format strings, block and line comments, strings with braces and quotes, raw strings, nested blocks; minimal prologue (package + import fmt / "use strict") and epilogue (GetToken). Every output path holds a longer, older file before generation (regenerate in place). Every file the CLI built from /repo reports as generated is compiled: the four Go variants as packages of one module through `go vet` (type check) and `go build`, the TypeScript variant loaded by node >= 22 with type stripping. non-trivial = (grammar, variant) pairs that the generator accepted',
     technique='Coq theorems on the text fragments the builder pastes (rule comment cannot be closed by action text; translate case labels distinct) + go vet/go build/node on every generated file of a corpus stressing names, literals, actions and rule shapes',
     level_text='Proved in Coq: the rule comment built from any action text contains no comment terminator and shows terminator-free text unchanged (C16_comment_safe, C16_comment_faithful); the case labels of translate are pairwise distinct when the code table passes the verified checker (C16_translate_cases_distinct). Acceptance of the whole file by the Go type checker / a JavaScript engine is runtime behaviour no Coq model exhibits (partial): it is decided on every run by compiling every generated file of the corpus in all five variants; compiler diagnostics are the failing evidence.',
     level_note=MODEL_NOTE + ' go vet/go build and node (type stripping, no type check: no tsc in the sandbox) are trusted for the verdict on each file. Guard: token names are identifiers of the target language that are not keywords or template names.')
